@@ -197,6 +197,28 @@ Proof.
   - split; [intros; congruence|]. split; [intros; congruence|]. intros _ _. eauto.
 Qed.
 
+(* an add during which the heap refuses the indirect table (C01 / C03 / C07: a fault at a particular point): for ANY state,
+   a panic out of a queue that is exactly as it was, with no effect at all (nothing shared, nothing stored); the allocation is
+   attempted exactly on the indirect path; with memory available, or when no table is wanted, add_af IS add *)
+Theorem add_alloc_failure s ins outs taddr :
+  (add_wants_table s ins outs = true -> add_af s ins outs taddr false = (Panic, s, []))
+  /\ (add_wants_table s ins outs = false -> add_af s ins outs taddr false = add s ins outs taddr)
+  /\ add_af s ins outs taddr true = add s ins outs taddr
+  /\ (add_wants_table s ins outs = true <->
+      (tag_bufs ins outs <> [] /\ capacity_ok s (lenN (tag_bufs ins outs)) = true
+       /\ q_indirect s = true /\ (1 < length (tag_bufs ins outs))%nat)).
+Proof.
+  unfold add_af. split; [intros ->; reflexivity|]. split; [intros ->; reflexivity|]. split; [reflexivity|].
+  unfold add_wants_table, lenN.
+  destruct (tag_bufs ins outs) as [|b l] eqn:E; cbn [length].
+  - split; [cbn; discriminate | intros (H & _); congruence].
+  - replace (N.of_nat (S (length l)) =? 0) with false by (symmetry; apply N.eqb_neq; lia). cbn [negb andb].
+    split.
+    + intros H. apply andb_prop in H as [H H3]. apply andb_prop in H as [H1 H2]. apply N.ltb_lt in H3.
+      repeat split; try assumption; try congruence. lia.
+    + intros (_ & H2 & H3 & H4). rewrite H2, H3. cbn [andb]. apply N.ltb_lt. lia.
+Qed.
+
 Theorem pop_refines s pre c post h ins outs u_idx u_id u_len :
   Reach s (pre ++ c :: post) h -> keys (tag_bufs ins outs) = keys (c_bufs c) ->
   (* nothing ready *)
